@@ -126,6 +126,8 @@ macro_rules! shared_types {
             "map_u64_i64" => $f::<BTreeMap<u64, i64>>($a),
             "opt_vec_tup" => $f::<Option<Vec<(u8, char)>>>($a), "vec_map" => $f::<Vec<BTreeMap<u16, Option<String>>>>($a),
             "tup_opt_arr" => $f::<(Option<u16>, [i8; 2], ())>($a),
+            "opt_vec_opt" => $f::<Option<Vec<Option<u8>>>>($a), "opt_tup_opt" => $f::<Option<(Option<u8>, u8)>>($a),
+            "opt_map_opt" => $f::<Option<BTreeMap<u8, Option<String>>>>($a), "vec_opt_vec_opt" => $f::<Vec<Option<Vec<Option<bool>>>>>($a),
             _ => $else
         }
     };
@@ -148,6 +150,9 @@ macro_rules! serde_types {
             "vec_record" => $f::<Vec<Record>>($a), "tup_record_u8" => $f::<(Record, u8)>($a), "vec_event" => $f::<Vec<Event>>($a),
             "tup_allskip_event_u8" => $f::<(AllSkip, Event, u8)>($a), "opt_record" => $f::<Option<Record>>($a),
             "OptOpt" => $f::<OptOpt>($a), "vec_itag" => $f::<Vec<ITag>>($a), "vec_untagged" => $f::<Vec<Untagged>>($a),
+            "tup_color_opt" => $f::<(Color, Option<u8>)>($a), "vec_opt_color" => $f::<Vec<Option<Color>>>($a),
+            "tup_ext_opt" => $f::<(Ext, Option<Ext>, Ext)>($a), "vec_opt_ext" => $f::<Vec<Option<Ext>>>($a),
+            "TsColorOpt" => $f::<TsColorOpt>($a),
             _ => "bad-op".to_string()
         })
     };
